@@ -166,12 +166,14 @@ def inc_line(R, key, nonce, toks):
 # ----------------------------------------------------------------------------- C06
 
 def tuples_C06(tier, rng):
-    """(R, key, nonce, aad, pt, kind) over lengths² × key length"""
+    """(R, key, nonce, aad, pt, kind) over lengths² × key length.  thorough: every (aad class, data class) pair with both key
+    lengths; quick: every pair with ONE key length chosen by the parity of the two class indices (so each length class of
+    the AAD and of the data meets both key lengths), both key lengths where both classes are in {0, 16}"""
     lens = list(LENS) + [None]
-    for la in lens:
-        for ld in lens:
+    for ia, la in enumerate(lens):
+        for id_, ld in enumerate(lens):
             for kl in (16, 32):
-                if tier == "quick" and rng.random() < 0.55 and not (la in (0, 16) and ld in (0, 16)):
+                if tier == "quick" and kl != (16, 32)[(ia + id_) % 2] and not (la in (0, 16) and ld in (0, 16)):
                     continue
                 a = rng.randrange(66, 4097) if la is None else la
                 d = rng.randrange(66, 4097) if ld is None else ld
@@ -201,7 +203,9 @@ def gen_C06(tier, rng):
     for (R, key, nonce, aad, pt, kind) in tuples_C06(tier, rng):
         ct, tag = ref_seal(R, key, nonce, aad, pt)
         base = f"{R} {hx(key)} {hx(nonce)}"
-        # one-shot, both directions, and the round trip on one object history each
+        # one-shot, both directions (function-style ops and the one-shot OBJECT op)
+        yield (f"aead.one {base} {hx(aad)} e{hx(pt)}", "one.enc." + kind)
+        yield (f"aead.one {base} {hx(aad)} d{hx(ct)}:{hx(tag)}", "one.dec." + kind)
         yield (f"aead.seal {base} {hx(aad)} {hx(pt)}", "seal." + kind)
         yield (f"aead.open {base} {hx(aad)} {hx(ct)} {hx(tag)}", "open." + kind)
         yield (f"aead.openbuf {base} {hx(aad)} {hx(ct)} {hx(tag)}", "openbuf." + kind)
@@ -212,21 +216,18 @@ def gen_C06(tier, rng):
         # partitions of the AAD (2- and 3-way), data split at random
         for ways in (2, 3):
             for pts in some_cuts(len(aad), rng, tier, ways):
+                # every partition in BOTH directions
                 ap = prog_aad(cut(aad, pts), rng, False)
-                if rng.random() < 0.5:
-                    yield (inc_line(R, key, nonce, ap + ["E"] + prog_data(rand_cut(pt, rng), "em", rng) + ["F"]), f"inc.aad{ways}.enc." + kind)
-                else:
-                    yield (inc_line(R, key, nonce, ap + ["D"] + prog_data(rand_cut(ct, rng), "dn", rng) + ["V" + hx(tag)]), f"inc.aad{ways}.dec." + kind)
+                yield (inc_line(R, key, nonce, ap + ["E"] + prog_data(rand_cut(pt, rng), "em", rng) + ["F"]), f"inc.aad{ways}.enc." + kind)
+                yield (inc_line(R, key, nonce, ap + ["D"] + prog_data(rand_cut(ct, rng), "dn", rng) + ["V" + hx(tag)]), f"inc.aad{ways}.dec." + kind)
         # partitions of the data (2- and 3-way): buffer-to-buffer, in place, mixed; AAD split at random
         for ways in (2, 3):
             for pts in some_cuts(len(pt), rng, tier, ways):
                 ap = prog_aad(rand_cut(aad, rng), rng)
                 mode = rng.choice(("b2b", "inplace", "mixed"))
                 le, ld = {"b2b": ("e", "d"), "inplace": ("m", "n"), "mixed": ("em", "dn")}[mode]
-                if rng.random() < 0.5:
-                    yield (inc_line(R, key, nonce, ap + ["E"] + prog_data(cut(pt, pts), le, rng) + ["F"]), f"inc.data{ways}.enc.{mode}." + kind)
-                else:
-                    yield (inc_line(R, key, nonce, ap + ["D"] + prog_data(cut(ct, pts), ld, rng) + ["V" + hx(tag)]), f"inc.data{ways}.dec.{mode}." + kind)
+                yield (inc_line(R, key, nonce, ap + ["E"] + prog_data(cut(pt, pts), le, rng) + ["F"]), f"inc.data{ways}.enc.{mode}." + kind)
+                yield (inc_line(R, key, nonce, ap + ["D"] + prog_data(cut(ct, pts), ld, rng) + ["V" + hx(tag)]), f"inc.data{ways}.dec.{mode}." + kind)
 
     # random stream: any lengths ≤ 4 KiB, many small pieces
     n = 150 if tier == "quick" else 1500
@@ -255,11 +256,19 @@ def flip(b, bit):
     return bytes(x)
 
 
-def both(R, key, nonce, aad, ct, tag, rng, kind):
-    """the same question to the one-shot and to the incremental interface"""
+def both(R, key, nonce, aad, ct, tag, rng, kind, n=None):
+    """the same question to the one-shot and to the incremental interface; with a call counter `n` (a one-element list)
+    also to the one-shot OBJECT (`aead.one … d<ct>:<tag>`) and to the variant that shows the output buffer whatever the
+    verdict (`aead.openbuf`): quick = the two take turns, thorough = both on every tuple"""
     yield (f"aead.open {R} {hx(key)} {hx(nonce)} {hx(aad)} {hx(ct)} {hx(tag)}", "open." + kind)
     toks = prog_aad(rand_cut(aad, rng), rng) + ["D"] + prog_data(rand_cut(ct, rng), "dn", rng) + ["V" + hx(tag)]
     yield (inc_line(R, key, nonce, toks), "inc." + kind)
+    if n is not None:
+        n[0] += 1
+        if n[1] or n[0] % 2 == 0:
+            yield (f"aead.one {R} {hx(key)} {hx(nonce)} {hx(aad)} d{hx(ct)}:{hx(tag)}", "one." + kind)
+        if n[1] or n[0] % 2 == 1:
+            yield (f"aead.openbuf {R} {hx(key)} {hx(nonce)} {hx(aad)} {hx(ct)} {hx(tag)}", "openbuf." + kind)
 
 
 def sample_bits(nbits, rng, k):
@@ -276,6 +285,7 @@ def sample_bits(nbits, rng, k):
 
 def gen_C07(tier, rng):
     q = tier == "quick"
+    n = [0, not q]      # call counter of `both`, all-interfaces flag
     shapes = [(0, 0), (0, 1), (1, 0), (12, 114), (16, 16), (15, 17), (17, 15), (16, 32), (32, 16), (0, 64), (64, 0),
               (63, 65), (13, 200)]
     if not q:
@@ -287,11 +297,14 @@ def gen_C07(tier, rng):
             key, nonce, aad, pt = rng.rbytes(kl), rng.rbytes(12), rng.rbytes(la), rng.rbytes(ld)
             ct, tag = ref_seal(R, key, nonce, aad, pt)
             sh = f"a{la}.d{ld}" if ix < 13 else "grid"
-            yield from both(R, key, nonce, aad, ct, tag, rng, "valid." + sh)
+            yield from both(R, key, nonce, aad, ct, tag, rng, "valid." + sh, n)
             # every one of the 128 tag bits (incremental interface: all of them for the first shapes, sampled later)
             for bit in range(128):
                 t = flip(tag, bit)
                 yield (f"aead.open {R} {hx(key)} {hx(nonce)} {hx(aad)} {hx(ct)} {hx(t)}", "open.tagbit")
+                if bit % 8 == ix % 8:
+                    yield (f"aead.one {R} {hx(key)} {hx(nonce)} {hx(aad)} d{hx(ct)}:{hx(t)}", "one.tagbit")
+                    yield (f"aead.openbuf {R} {hx(key)} {hx(nonce)} {hx(aad)} {hx(ct)} {hx(t)}", "openbuf.tagbit")
                 if ix < 4 or not q or bit % 16 == (ix % 16):
                     toks = prog_aad(rand_cut(aad, rng), rng) + ["D"] + prog_data(rand_cut(ct, rng), "dn", rng) + ["V" + hx(t)]
                     yield (inc_line(R, key, nonce, toks), "inc.tagbit")
@@ -300,47 +313,47 @@ def gen_C07(tier, rng):
                       ref_tag(R, key, nonce, aad, b""), poly1305(chacha_block(R, key, nonce, 0)[:32], aad + ct)]
             for t in others:
                 if t != tag:
-                    yield from both(R, key, nonce, aad, ct, t, rng, "othertag")
+                    yield from both(R, key, nonce, aad, ct, t, rng, "othertag", n)
             k = 6 if q else 24
             for bit in sample_bits(8 * len(ct), rng, k):
-                yield from both(R, key, nonce, aad, flip(ct, bit), tag, rng, "ctbit")
+                yield from both(R, key, nonce, aad, flip(ct, bit), tag, rng, "ctbit", n)
             for bit in sample_bits(8 * len(aad), rng, k):
-                yield from both(R, key, nonce, flip(aad, bit), ct, tag, rng, "aadbit")
+                yield from both(R, key, nonce, flip(aad, bit), ct, tag, rng, "aadbit", n)
             for bit in sample_bits(8 * kl, rng, k):
-                yield from both(R, flip(key, bit), nonce, aad, ct, tag, rng, "keybit")
+                yield from both(R, flip(key, bit), nonce, aad, ct, tag, rng, "keybit", n)
             for bit in sample_bits(96, rng, k):
-                yield from both(R, key, flip(nonce, bit), aad, ct, tag, rng, "noncebit")
+                yield from both(R, key, flip(nonce, bit), aad, ct, tag, rng, "noncebit", n)
             # the other key length / round count with the same leading bytes
-            yield from both(R, key[:16] if kl == 32 else key + key, nonce, aad, ct, tag, rng, "keylen")
-            yield from both(8 if R != 8 else 12, key, nonce, aad, ct, tag, rng, "rounds")
+            yield from both(R, key[:16] if kl == 32 else key + key, nonce, aad, ct, tag, rng, "keylen", n)
+            yield from both(8 if R != 8 else 12, key, nonce, aad, ct, tag, rng, "rounds", n)
             # moving bytes across the AAD / ciphertext boundary (same concatenation)
             cat = aad + ct
             for m in sorted({1, 2, 15, 16, 17, len(ct), len(aad)}):
                 if 0 < m <= len(ct):
-                    yield from both(R, key, nonce, cat[:la + m], cat[la + m:], tag, rng, "boundary.to_aad")
+                    yield from both(R, key, nonce, cat[:la + m], cat[la + m:], tag, rng, "boundary.to_aad", n)
                 if 0 < m <= len(aad):
-                    yield from both(R, key, nonce, cat[:la - m], cat[la - m:], tag, rng, "boundary.to_ct")
+                    yield from both(R, key, nonce, cat[:la - m], cat[la - m:], tag, rng, "boundary.to_ct", n)
             # swapped lengths: |aad| and |ct| exchange their roles over the same concatenation
             if la != ld:
-                yield from both(R, key, nonce, cat[:ld], cat[ld:], tag, rng, "swaplen")
+                yield from both(R, key, nonce, cat[:ld], cat[ld:], tag, rng, "swaplen", n)
             # exchange aad and ct
             if aad != ct:
-                yield from both(R, key, nonce, ct, aad, tag, rng, "exchange")
+                yield from both(R, key, nonce, ct, aad, tag, rng, "exchange", n)
             # truncation / extension
             for m in (1, 15, 16, 17):
                 if m <= len(ct):
-                    yield from both(R, key, nonce, aad, ct[:-m], tag, rng, "trunc.ct")
-                    yield from both(R, key, nonce, aad, ct[m:], tag, rng, "trunc.ct.front")
+                    yield from both(R, key, nonce, aad, ct[:-m], tag, rng, "trunc.ct", n)
+                    yield from both(R, key, nonce, aad, ct[m:], tag, rng, "trunc.ct.front", n)
                 if m <= len(aad):
-                    yield from both(R, key, nonce, aad[:-m], ct, tag, rng, "trunc.aad")
-                yield from both(R, key, nonce, aad, ct + bytes(m), tag, rng, "extend.ct.zeros")
-                yield from both(R, key, nonce, aad + bytes(m), ct, tag, rng, "extend.aad.zeros")
-                yield from both(R, key, nonce, aad, ct + rng.rbytes(m), tag, rng, "extend.ct")
+                    yield from both(R, key, nonce, aad[:-m], ct, tag, rng, "trunc.aad", n)
+                yield from both(R, key, nonce, aad, ct + bytes(m), tag, rng, "extend.ct.zeros", n)
+                yield from both(R, key, nonce, aad + bytes(m), ct, tag, rng, "extend.aad.zeros", n)
+                yield from both(R, key, nonce, aad, ct + rng.rbytes(m), tag, rng, "extend.ct", n)
             # pad confusion: extending by exactly the pad16 zeros gives the same padded string, only the length word differs
             if la % 16:
-                yield from both(R, key, nonce, aad + pad16(aad), ct, tag, rng, "padconf.aad")
+                yield from both(R, key, nonce, aad + pad16(aad), ct, tag, rng, "padconf.aad", n)
             if ld % 16:
-                yield from both(R, key, nonce, aad, ct + pad16(ct), tag, rng, "padconf.ct")
+                yield from both(R, key, nonce, aad, ct + pad16(ct), tag, rng, "padconf.ct", n)
             # tag of the wrong length on the one-shot interface (refused)
             for t in (tag[:15], tag + b"\x00", b"", tag[:8]):
                 yield (f"aead.open {R} {hx(key)} {hx(nonce)} {hx(aad)} {hx(ct)} {hx(t)}", "open.taglen")
@@ -356,11 +369,11 @@ def gen_C07(tier, rng):
         ct, _ = ref_seal(R, key, nonce, aad, pt)
         ct = ct[:ld - zd] + bytes(zd)              # a ciphertext with a zero tail
         tag = ref_tag(R, key, nonce, aad, ct)
-        yield from both(R, key, nonce, aad, ct, tag, rng, "zerotail.valid")
+        yield from both(R, key, nonce, aad, ct, tag, rng, "zerotail.valid", n)
         if za and (la - za + 15) // 16 == (la + 15) // 16:
-            yield from both(R, key, nonce, aad[:la - za], ct, tag, rng, "zerotail.aad")
+            yield from both(R, key, nonce, aad[:la - za], ct, tag, rng, "zerotail.aad", n)
         if zd and (ld - zd + 15) // 16 == (ld + 15) // 16:
-            yield from both(R, key, nonce, aad, ct[:ld - zd], tag, rng, "zerotail.ct")
+            yield from both(R, key, nonce, aad, ct[:ld - zd], tag, rng, "zerotail.ct", n)
 
 
 # ----------------------------------------------------------------------------- C20 (aead part)
